@@ -448,6 +448,14 @@ def classify(name, c, what="matrix"):
             return "dft-inv-padded"
     if name in ("AngularSpectrumPropagator", "FresnelPropagator") and c.get("pad_factor", 1) > 1:
         return "dft-inv-padded"
+    if name in ("PolarGradient", "CylindricalGradient", "SphericalGradient") and c["center"] is not None:
+        # the constructor samples the positions with a float-valued range ogrid[-c : n - c]: one sample too many for some centres
+        nax = 2 if name != "SphericalGradient" else 3
+        axes = list(range(3 if name != "PolarGradient" else 2)) if c["axes"] is None else c["axes"]
+        for k in range(nax):
+            n, cen = c["shape"][axes[k]], np.float64(c["center"][k])
+            if len(np.arange(-cen, np.float64(n) - cen)) != n:
+                return "projgrad-center-grid-length"
     if name == "ProjectedGradient" and c["cdiff"] and c["coord"] is not None:
         nax = len(c["shape"]) if c["axes"] is None else len(c["axes"])
         if nax == 1:
@@ -536,7 +544,7 @@ def check_config(ctx, lean, oracle, name, c, op):
     ctx.case(case, None if trivial else key)
     ctx.count(f"in={declared[1]}")
     if R.shape != declared:
-        ctx.disagree(f"{name}.shape", case, list(R.shape), list(declared), oracle=oracle)
+        ctx.disagree(f"{name}.shape", case, list(R.shape), list(declared), oracle=oracle, known_id=classify(name, c))
         return
     if name == "Slice":  # declared output shape (indexed_shape) = shape numpy gives for the same index expression
         want = tuple(np.zeros(c["shape"])[opgrid._idx_dec(c["idx"])].shape)
@@ -1003,6 +1011,7 @@ def _axes_oracle(case):
 
 
 KNOWN_WITNESSES = {
+    "projgrad-center-grid-length": ("PolarGradient", {"shape": [6, 6], "axes": None, "center": [-2.21, 0.556], "angular": True, "radial": True, "cdiff": False, "dtype": "float64"}, "matrix"),
     "dft-inv-padded": ("DFT", {"shape": [4], "axes": None, "axes_shape": [8], "norm": None}, "inverse"),
     "projgrad-cdiff-single-axis": ("ProjectedGradient", {"shape": [4], "axes": [0], "coord": [{"array": {"shape": [1, 4], "re": [0.0, 0.25, 1.5, 0.625], "im": None}}], "cdiff": True, "dtype": "float64"}, "matrix"),
 }
